@@ -34,7 +34,7 @@ Base == [ K |-> 1, mach |-> Mach3, arrays |-> 3, maxIngest |-> 2,
           hotCap |-> 30, coldCap |-> 30, hotRate |-> 3, coldRate |-> 2,
           order |-> <<"a", "b">>, obs |-> EmptyFn,
           alg |-> "batch", parts |-> 1, minPer |-> 1, split |-> EmptyFn,
-          extra |-> EmptyFn, plan |-> EmptyFn, advRounds |-> 0, perm |-> {}, canon |-> TRUE, seg |-> FALSE ]
+          extra |-> EmptyFn, plan |-> EmptyFn, advRounds |-> 0, perm |-> {}, canon |-> TRUE, seg |-> FALSE, api |-> FALSE ]
 
 (* static plan: every assignment of tasks to machines; est/eft only order  *)
 (* ties, so a fixed est = node id, eft = est + 1 is enough for the model   *)
